@@ -371,6 +371,138 @@ Proof.
       rewrite !cmp_keys_app, H. cbn. rewrite app_nil_r. reflexivity.
 Qed.
 
+
+(* ---------- a raising comparison cuts the comparisons short, nothing else ---------- *)
+Lemma cmps_some id ps : forall n,
+  cmps id ps (Some n) =
+  if (n <? length ps)%nat then (map (PCmp id) (firstn (S n) ps), Some 0%nat, true)
+  else (map (PCmp id) ps, Some (n - length ps)%nat, false).
+Proof.
+  induction ps as [|x r IH]; intro n; [cbn; rewrite Nat.sub_0_r; reflexivity|].
+  destruct n as [|n]; [reflexivity|].
+  cbn [cmps length]. rewrite IH. change (S n <? S (length r))%nat with (n <? length r)%nat.
+  destruct (n <? length r)%nat; reflexivity.
+Qed.
+
+Lemma firstn_app_le {A} (a b : list A) n : (n <= length a)%nat -> firstn n (a ++ b) = firstn n a.
+Proof.
+  intro H. rewrite firstn_app. replace (n - length a)%nat with 0%nat by lia. cbn. apply app_nil_r.
+Qed.
+
+Lemma firstn_app_ge {A} (a b : list A) n : (length a <= n)%nat -> firstn n (a ++ b) = a ++ firstn (n - length a) b.
+Proof. intro H. rewrite firstn_app. rewrite firstn_all2 by exact H. reflexivity. Qed.
+
+Lemma set_cut p : forall n, cmp_keys (ptr (set_tr p (Some n))) = firstn (S n) (all_probes p) /\
+  pfailed (set_tr p (Some n)) = (n <? length (all_probes p))%nat /\
+  (pfailed (set_tr p (Some n)) = false -> pleft (set_tr p (Some n)) = Some (n - length (all_probes p))%nat).
+Proof.
+  induction p as [|[id ps] rest IH]; intro n.
+  - cbn. rewrite Nat.sub_0_r. repeat split.
+  - cbn [set_tr all_probes flat_map snd]. rewrite cmps_some. rewrite app_length.
+    destruct (n <? length ps)%nat eqn:E.
+    + apply Nat.ltb_lt in E. cbn [ptr pfailed pleft fst snd].
+      change (PUse id :: map (PCmp id) (firstn (S n) ps) ++ [PUnuse id])
+        with ([PUse id] ++ map (PCmp id) (firstn (S n) ps) ++ [PUnuse id]).
+      rewrite !cmp_keys_app, cmp_keys_map. cbn [cmp_keys flat_map app]. rewrite app_nil_r.
+      rewrite firstn_app_le by lia. split; [reflexivity|]. split; [|discriminate].
+      symmetry. apply Nat.ltb_lt. lia.
+    + apply Nat.ltb_ge in E. specialize (IH (n - length ps)%nat).
+      destruct (set_tr rest (Some (n - length ps)%nat)) as [[e2 c2] f2].
+      cbn [ptr pfailed pleft fst snd] in *. destruct IH as (IH1 & IH2 & IH3).
+      change (PUse id :: map (PCmp id) ps ++ e2 ++ [PUnuse id])
+        with ([PUse id] ++ map (PCmp id) ps ++ e2 ++ [PUnuse id]).
+      rewrite !cmp_keys_app, cmp_keys_map, IH1. cbn [cmp_keys flat_map app]. rewrite app_nil_r.
+      rewrite firstn_app_ge by lia. replace (S n - length ps)%nat with (S (n - length ps)) by lia.
+      split; [reflexivity|]. split.
+      * rewrite IH2. unfold all_probes.
+        destruct (Nat.ltb_spec (n - length ps) (length (flat_map snd rest)));
+          destruct (Nat.ltb_spec n (length ps + length (flat_map snd rest))); try reflexivity; lia.
+      * intro Hf. rewrite (IH3 Hf). unfold all_probes. f_equal. lia.
+Qed.
+
+Theorem set_trace_cut p n : cmp_keys (ptr (set_tr p (Some n))) = firstn (S n) (all_probes p).
+Proof. apply set_cut. Qed.
+
+Lemma cmp_keys_use i l : cmp_keys (PUse i :: l) = cmp_keys l.  Proof. reflexivity. Qed.
+Lemma cmp_keys_unuse i l : cmp_keys (PUnuse i :: l) = cmp_keys l.  Proof. reflexivity. Qed.
+Lemma cmp_keys_nil : cmp_keys [] = [].  Proof. reflexivity. Qed.
+Lemma cmp_keys_done (reb : bool) id : cmp_keys (if reb then [PUnuse id] else []) = [].
+Proof. destruct reb; reflexivity. Qed.
+Ltac ck := repeat (rewrite cmp_keys_app || rewrite cmp_keys_use || rewrite cmp_keys_unuse || rewrite cmp_keys_map
+                   || rewrite cmp_keys_nil || rewrite cmp_keys_done); rewrite ?app_nil_r.
+
+Lemma get_loop_cut rest : forall id ps n,
+  cmp_keys (ptr (get_loop id ps rest (Some n))) = firstn (S n) (ps ++ all_probes rest).
+Proof.
+  induction rest as [|[id2 ps2] rest2 IH]; intros id ps n.
+  - cbn [get_loop all_probes flat_map]. rewrite cmps_some, app_nil_r.
+    destruct (n <? length ps)%nat eqn:E; cbn [ptr fst]; ck; [reflexivity|].
+    apply Nat.ltb_ge in E. rewrite firstn_all2 by lia. reflexivity.
+  - destruct rest2 as [|y rest3].
+    + cbn [get_loop all_probes flat_map snd]. rewrite cmps_some, app_nil_r.
+      destruct (n <? length ps)%nat eqn:E.
+      * apply Nat.ltb_lt in E. cbn [ptr fst]. ck. rewrite firstn_app_le by lia. reflexivity.
+      * apply Nat.ltb_ge in E. rewrite cmps_some.
+        rewrite firstn_app_ge by lia. replace (S n - length ps)%nat with (S (n - length ps)) by lia.
+        destruct (n - length ps <? length ps2)%nat eqn:E2; cbn [ptr fst]; ck; [reflexivity|].
+        apply Nat.ltb_ge in E2. rewrite (firstn_all2 ps2) by lia. reflexivity.
+    + specialize (IH id2 ps2). rewrite get_loop_step, cmps_some.
+      destruct (n <? length ps)%nat eqn:E.
+      * apply Nat.ltb_lt in E. cbn [ptr fst]. ck. rewrite firstn_app_le by lia. reflexivity.
+      * apply Nat.ltb_ge in E. specialize (IH (n - length ps)%nat).
+        destruct (get_loop id2 ps2 (y :: rest3) (Some (n - length ps)%nat)) as [[e2 c2] f2].
+        cbn [ptr fst] in *. ck. rewrite IH.
+        rewrite (firstn_app_ge ps) by lia. replace (S n - length ps)%nat with (S (n - length ps)) by lia.
+        reflexivity.
+Qed.
+
+Lemma range_loop_cut rest : forall id reb ps n,
+  cmp_keys (ptr (range_loop id reb ps rest (Some n))) = firstn (S n) (ps ++ all_probes rest).
+Proof.
+  induction rest as [|[id2 ps2] rest2 IH]; intros id reb ps n.
+  - cbn [range_loop all_probes flat_map]. rewrite cmps_some, app_nil_r.
+    destruct (n <? length ps)%nat eqn:E; cbn [ptr fst]; ck; [reflexivity|].
+    apply Nat.ltb_ge in E. rewrite firstn_all2 by lia. reflexivity.
+  - destruct rest2 as [|y rest3].
+    + cbn [range_loop all_probes flat_map snd]. rewrite cmps_some, app_nil_r.
+      destruct (n <? length ps)%nat eqn:E.
+      * apply Nat.ltb_lt in E. cbn [ptr fst]. ck. rewrite firstn_app_le by lia. reflexivity.
+      * apply Nat.ltb_ge in E. rewrite cmps_some.
+        rewrite firstn_app_ge by lia. replace (S n - length ps)%nat with (S (n - length ps)) by lia.
+        destruct (n - length ps <? length ps2)%nat eqn:E2; cbn [ptr fst]; ck; [reflexivity|].
+        apply Nat.ltb_ge in E2. rewrite (firstn_all2 ps2) by lia. reflexivity.
+    + specialize (IH id2 true ps2). rewrite range_loop_step, cmps_some.
+      destruct (n <? length ps)%nat eqn:E.
+      * apply Nat.ltb_lt in E. cbn [ptr fst]. ck. rewrite firstn_app_le by lia. reflexivity.
+      * apply Nat.ltb_ge in E. specialize (IH (n - length ps)%nat).
+        destruct (range_loop id2 true ps2 (y :: rest3) (Some (n - length ps)%nat)) as [[e2 c2] f2].
+        cbn [ptr fst] in *. ck. rewrite IH.
+        rewrite (firstn_app_ge ps) by lia. replace (S n - length ps)%nat with (S (n - length ps)) by lia.
+        reflexivity.
+Qed.
+
+(* the comparisons of a call in which comparison number n (from 0) raises are the first n + 1
+   comparisons of the complete call *)
+Theorem trace_cut d p n : cmp_keys (ptr (pin_trace d p (Some n))) = firstn (S n) (all_probes p).
+Proof.
+  destruct d; cbn [pin_trace].
+  - destruct p as [|[id ps] rest]; [reflexivity|]. destruct rest as [|y rest].
+    + cbn [get_tr all_probes flat_map snd]. rewrite cmps_some, app_nil_r.
+      destruct (n <? length ps)%nat eqn:E; cbn [ptr fst]; ck; [reflexivity|].
+      apply Nat.ltb_ge in E. rewrite firstn_all2 by lia. reflexivity.
+    + cbn [get_tr]. pose proof (get_loop_cut (y :: rest) id ps n) as H.
+      destruct (get_loop id ps (y :: rest) (Some n)) as [[e c'] f]. cbn [ptr fst] in *.
+      ck. rewrite H. reflexivity.
+  - apply set_trace_cut.
+  - destruct p as [|[id ps] rest]; [reflexivity|]. destruct rest as [|y rest].
+    + cbn [range_tr all_probes flat_map snd]. rewrite cmps_some, app_nil_r.
+      destruct (n <? length ps)%nat eqn:E; cbn [ptr fst]; ck; [reflexivity|].
+      apply Nat.ltb_ge in E. rewrite firstn_all2 by lia. reflexivity.
+    + cbn [range_tr]. pose proof (range_loop_cut (y :: rest) id false ps n) as H.
+      destruct (range_loop id false ps (y :: rest) (Some n)) as [[e c'] f]. cbn [ptr fst] in *.
+      ck. rewrite H. reflexivity.
+Qed.
+
 (* the probes along the path are Search.cmp_trace *)
 Section PathTrace.
 Variable V : Type.
